@@ -163,20 +163,35 @@ def build_harness(race=False):
 
 
 def run_lines(binary, args, lines, timeout=600, env=None):
-    """feed lines, get one output line per input line (None for missing ones)"""
-    data = "\n".join(lines) + "\n"
-    try:
-        p = subprocess.run([binary] + args, input=data, stdout=subprocess.PIPE, stderr=subprocess.PIPE,
-                           text=True, timeout=timeout, env=env)
-        out = p.stdout.splitlines()
-        err = p.stderr
-        rc = p.returncode
-    except subprocess.TimeoutExpired as e:
-        out = (e.stdout or b"").decode(errors="replace").splitlines() if isinstance(e.stdout, bytes) else (e.stdout or "").splitlines()
-        err = "TIMEOUT"
-        rc = -9
-    res = out + [None] * (len(lines) - len(out))
-    return res[:len(lines)], rc, err
+    """feed lines, get one output line per input line. A process that dies or hangs on a case
+    (the harness prints HANG and exits, or the timeout expires) yields None for that case and is
+    restarted on the remaining cases."""
+    res, pos, err_all, rc = [], 0, "", 0
+    restarts = 0
+    while pos < len(lines):
+        data = "\n".join(lines[pos:]) + "\n"
+        try:
+            p = subprocess.run([binary] + args, input=data, stdout=subprocess.PIPE, stderr=subprocess.PIPE,
+                               text=True, timeout=timeout, env=env)
+            out, rc = p.stdout.splitlines(), p.returncode
+            err_all += p.stderr[-2000:]
+        except subprocess.TimeoutExpired as e:
+            raw = e.stdout or b""
+            out = (raw.decode(errors="replace") if isinstance(raw, bytes) else raw).splitlines()
+            err_all += "TIMEOUT"
+            rc = -9
+        if out and out[-1] == "HANG":
+            out[-1] = None
+        res += out[:len(lines) - pos]
+        pos = len(res)
+        if pos < len(lines):
+            # died without reporting on lines[pos]
+            res.append(None); pos += 1
+            restarts += 1
+            if restarts > 50:
+                res += [None] * (len(lines) - pos)
+                break
+    return res[:len(lines)], rc, err_all
 
 
 def driver_bin():
